@@ -160,3 +160,16 @@ Lemma np_refuted :
   In 5 (snd (DurableFine.np_run bool nat nat false toy_step [Some 5; None; Some 6])) /\
   In 6 (snd (DurableFine.np_run bool nat nat false toy_step [Some 5; None; Some 6])).
 Proof. vm_compute. split; auto. Qed.
+
+(* the premises on restore / eqv are satisfiable *)
+Lemma fine_premises_id : forall (S E V : Type) (step : S -> E -> S * list V),
+  (forall s : S, s = s) /\ (forall a b c : S, a = b -> b = c -> a = c) /\
+  (forall s s' e, s = s' -> snd (step s e) = snd (step s' e) /\ fst (step s e) = fst (step s' e)) /\
+  (forall s : S, (fun x => x) s = s).
+Proof. intros. repeat split; intros; subst; reflexivity. Qed.
+
+From Verif.model Require Import AgreementTypes.
+Lemma assemble_repropose_not_persistent : forall r p v,
+  persistent [AAssemble r p; ARezero r] = false /\ persistent [ARepropose r p v] = false /\
+  persistent [AAttest r p s_soft v] = true.
+Proof. intros. repeat split. Qed.
